@@ -25,7 +25,7 @@ def gcall(c):
 
 def raw_case(progs, sched):
     threads = [["t%d" % i] + p for i, p in enumerate(progs)]
-    return {"scn": ["conc", ["objects", ["observer"]], ["init"], ["threads"] + threads, ["fini", ["oissub", 0]], ["sched"] + sched],
+    return {"scn": ["conc", ["objects", ["observer"]], ["init"], ["threads"] + threads, ["fini", ["oissub", 0]], ["sched"] + sched] + ([["want-choices"]] if sched[0] == "dfs" else []),
             "kind": "raw", "progs": progs, "sched": sched}
 
 
